@@ -12,6 +12,7 @@ from engine.twins import TwinSpec, project, first_difference, count_events
 from engine.util import own_nodes, calls_with_nodes, where, optional_numeric_params, truthiness_uses
 
 RULES = {
+    "R-18.9": "a transfer message is read under the EARLIER of its per-message deadline and the transfer's lifetime: in both _inbound_xfr twins the clamp replaces mexpiration by expiration exactly when mexpiration is None or later than expiration",
     "R-18.8": "the header fields is_response compares are extracted whole: opcode.from_flags inverts opcode.to_flags for all sixteen opcodes whatever the other flag bits are (evaluated by the checker on the two return expressions), so opcodes 8..15 do not alias 0..7; and every dns.asyncquery function has the parameter defaults of its dns.query twin, an option only the async side has defaulting to its 'off' value (False/None/0)",
     "R-18.7": "backend sockets take a RELATIVE timeout: every timeout argument handed to an async socket method (sendall/recv/sendto/recvfrom) in dns/asyncquery.py is `_timeout(<expiration>)` or a local computed from it - never the absolute expiration itself (a timestamp read as seconds never expires)",
     "R-18.6": "an expired deadline surfaces as dns.exception.Timeout on every backend: in the asyncio backend asyncio.wait_for is called only inside _maybe_wait_for (which translates asyncio.TimeoutError), and that translation is in place - a bare TimeoutError is an OSError, which callers read as 'the server is broken'",
@@ -327,6 +328,20 @@ def run(model, rep, tier):
     okk = any(h.type is not None and "TimeoutError" in src(h.type) and any(isinstance(x, ast.Raise) and "dns.exception.Timeout" in src(x) for x in ast.walk(h)) for h in hs)
     rep.check(okk, "R-18.6", mw.qualname, where(mw, mw.node), "asyncio.TimeoutError is translated to dns.exception.Timeout", "_maybe_wait_for no longer translates asyncio.TimeoutError into dns.exception.Timeout", stmt="timeout-translation")
     rep.floor("R-18.6", n_wf, 1)
+    # ---------------------------------------------------------------- R-18.9
+    for qn in ("dns.query._inbound_xfr", "dns.asyncquery._inbound_xfr"):
+        fx9 = model.func(qn)
+        e9 = pat.Env()
+        cl = [n for n in ast.walk(fx9.node) if isinstance(n, ast.If) and len(n.body) == 1 and isinstance(n.body[0], ast.Assign) and src(n.body[0].value) == "expiration" and isinstance(n.body[0].targets[0], ast.Name)]
+        if len(cl) != 1:
+            rep.blind("R-18.9", qn, where(fx9, fx9.node), "the deadline clamp `if ...: <m> = expiration` was not found", stmt="deadline-clamp")
+            continue
+        mv = cl[0].body[0].targets[0].id
+        at9 = set(atoms(normalise_compare(cl[0].test)))
+        want9 = {(mv, "is", "None"), ("expiration", "is not", "None"), A(mv, ">", "expiration")}
+        rep.check(at9 == want9 and normalise_compare(cl[0].test)[0] == "or", "R-18.9", qn, where(fx9, cl[0]), f"`{mv}` = min(per-message deadline, lifetime)",
+                  f"the clamp condition is `{src(cl[0].test)[:70]}`: the later of the two deadlines is used (or the wrong one replaced), so messages arriving after the lifetime - or after the per-message timeout - are "
+                  "still read and applied instead of raising Timeout", stmt="deadline-clamp")
     # ---------------------------------------------------------------- R-18.8
     from engine.minieval import evaluate, Unsupported
     ff, tf = model.func("dns.opcode.from_flags"), model.func("dns.opcode.to_flags")
@@ -394,6 +409,8 @@ def run(model, rep, tier):
 
 
 WITNESSES = [
+    {"id": "c18-xfr-clamp-takes-later-deadline", "rule": "R-18.9", "file": "dns/query.py", "expect": "fires",
+     "old": "                expiration is not None and mexpiration > expiration", "new": "                expiration is not None and mexpiration < expiration", "count": 1},
     {"id": "c18-opcode-from-flags-three-bits", "rule": "R-18.8", "file": "dns/opcode.py", "expect": "fires",
      "old": "    return Opcode((flags & 0x7800) >> 11)", "new": "    return Opcode((flags >> 11) & 0x7)"},
     {"id": "c18-twin-opcode-from-flags-shift-first", "rule": "R-18.8", "file": "dns/opcode.py", "expect": "silent",
